@@ -223,10 +223,14 @@ func (p *Program) info(fn *ssa.Function) *fnInfo {
 		}
 	}
 	fi.nregs = n
-	fi.intr = lookupIntrinsic(fn, fi.name)
+	var inert bool
+	fi.intr, inert = lookupIntrinsic2(fn, fi.name)
 	fi.isPkgInit = fn.Pkg != nil && fn.Name() == "init" && fn.Signature.Recv() == nil && fn.Pkg.Func("init") == fn
 	if mf, ok := p.ModelFns[fi.name]; ok {
 		fi.model = mf
+		if inert {
+			fi.intr = nil // a configured model replaces the inert default
+		}
 	}
 	act, _ := p.fnInfos.LoadOrStore(fn, fi)
 	return act.(*fnInfo)
